@@ -66,6 +66,11 @@ CHECKS = {
    technique="TLA+ spec Crash.tla (storage operations refined into persisted write steps, Crash enabled at every step boundary) model-checked with TLC; every crashed state replayed by killing a child process at the matching probe (hook H2) and re-opening the account",
    text="Crash.tla refines create/update/delete of a secret and folder compaction into the writes the code performs on the persisted vault, the folder event log, its snapshot and the account log, for the file-system and the sqlite backend; TLC enumerates pre-history x crashing operation x step boundary and shows that the intended design (atomic log replacement, vault reconciled with the log on open) satisfies OpensAfterCrash, LogBeforeOrAfter and FolderEqReplayAfterRecover. Each crashed state of the code-faithful model becomes one process-level test: a child performs the pre-history on a real account, arms the probe of that boundary and dies by abort(); the parent re-opens through the normal path and checks that the account opens, the folder log is the one before or after the operation, reduce(log) = served = persisted and the integrity report is clean. Failures at crash points listed in known_findings.jsonl (keyed by backend, crash point and failure class) print KNOWN-FINDING; any other is a VIOLATION.",
    note="Process death between writes only (completed writes are applied in order); torn writes inside one write() and power-loss reordering are not enumerated; operations covered: secret create/update/delete, compaction (folder create/delete, merges, key changes have probes but are not yet in Crash.tla)."),
+ "C03": dict(
+   level="model_checking", design="DESIGN.md 6.9, 7 (C03)",
+   technique="TLA+ spec Flow.tla (operations write clear / sealed-under-key tokens to sinks; observer closure) model-checked with TLC; simulated behaviours executed on two LocalAccount devices and an in-process server with a byte scan of every sink after every step compared with the specification's predicted clear tokens",
+   text="Flow.tla gives, for every operation (create / update / move a secret of each kind, file secret, create / rename / describe a folder, sync of a device, backup export), the tokens written to each sink (device storage, server storage, wire, archive, audit log) in the clear or sealed under a key; TLC checks OnlyNamesInClear, NothingRecoverable, AccountPasswordNowhere and NamesFollowSync on all states of short histories and the harness replays long simulated behaviours on real accounts (file-system and sqlite clients and servers). After every operation every file under the device and server directories, every buffer that crossed the in-process wire, every archive (raw and per decompressed entry) and the audit log is scanned for every marker planted so far (label, tags, each field of all 15 secret kinds, comment, recovery note, nested custom fields, embedded and external file content and names, folder descriptions), the account password, the folder passwords and every secret stored in the identity folder, in raw, hex, base64 (3 alignments, 2 alphabets) and UTF-16 forms. A secret class found anywhere is a VIOLATION; the marker-bearing folder names found per sink must equal the prediction of Flow.tla after every step (this keeps the scanner honest: names must appear on the server / wire / other device exactly after the sync that carries them).",
+   note="Pairing, relay and HTTP file-transfer bodies are not executed; tracing output of the server is not captured; a leak is recognised only in the listed encodings; search index is memory-only and not scanned."),
  "C10": dict(
    level="model_checking", design="DESIGN.md 6.8, 7 (C10)",
    technique="TLA+ spec Crypto.tla (Enc / Tamper / Dec over ciphers, keys, nonces, tamper classes) model-checked with TLC; every class of decryption attempt TLC emits is instantiated on sos_core::crypto at every bit / offset; nonces recorded from real account histories validated as a trace of Enc with CryptoTrace.tla",
